@@ -633,7 +633,12 @@ class SimChild(_InfoMixin):
         self.pid = pid
 
     def _proc(self):
-        return self.kernel.procs[self.pid]
+        p = self.kernel.procs.get(self.pid)
+        if p is None:
+            # the world this object belonged to has been closed (objects of a
+            # finished episode being finalised): the process is gone
+            raise _simulated(NoSuchProcess(self.pid))
+        return p
 
     def _probe(self):
         p = self.kernel.procs.get(self.pid)
@@ -759,7 +764,12 @@ class SimPopen(_InfoMixin):
             k.on_spawn(p)
 
     def _proc(self):
-        return self.kernel.procs[self.pid]
+        p = self.kernel.procs.get(self.pid)
+        if p is None:
+            # the world this object belonged to has been closed (objects of a
+            # finished episode being finalised): the process is gone
+            raise _simulated(NoSuchProcess(self.pid))
+        return p
 
     def _probe(self):
         if self._proc().state == 'reaped':
